@@ -8,6 +8,7 @@ import (
 	"fmt"
 	"io"
 	"os"
+	"strings"
 
 	"github.com/Eyevinn/mp4ff/avc"
 	"github.com/Eyevinn/mp4ff/hevc"
@@ -359,13 +360,13 @@ func parseFragmentedMp4(w io.Writer, f *mp4.File, maxNrSamples int, codec string
 }
 
 func printAVCNalus(w io.Writer, avcSPS *avc.SPS, nalus [][]byte, nr int, pts uint64, seiLevel int, parameterSets bool, nrRaw int) error {
-	msg := ""
+	var msg strings.Builder // one line per sample: appending must not copy what is already there
 	var seiNALUs [][]byte
 	totLen := 0
 	for i, nalu := range nalus {
 		totLen += 4 + len(nalu)
 		if i > 0 {
-			msg += ","
+			msg.WriteString(",")
 		}
 		naluType := avc.GetNaluType(nalu[0])
 		imgType := ""
@@ -387,13 +388,13 @@ func printAVCNalus(w io.Writer, avcSPS *avc.SPS, nalus [][]byte, nr int, pts uin
 			}
 		}
 		if nrRaw > 0 {
-			msg += fmt.Sprintf("\n %s %s(%dB)", naluType, imgType, len(nalu))
-			msg += fmt.Sprintf(" raw: %s", bytesToStringN(nalu, nrRaw))
+			fmt.Fprintf(&msg, "\n %s %s(%dB)", naluType, imgType, len(nalu))
+			fmt.Fprintf(&msg, " raw: %s", bytesToStringN(nalu, nrRaw))
 		} else {
-			msg += fmt.Sprintf(" %s %s(%dB)", naluType, imgType, len(nalu))
+			fmt.Fprintf(&msg, " %s %s(%dB)", naluType, imgType, len(nalu))
 		}
 	}
-	fmt.Fprintf(w, "Sample %d, pts=%d (%dB):%s\n", nr, pts, totLen, msg)
+	fmt.Fprintf(w, "Sample %d, pts=%d (%dB):%s\n", nr, pts, totLen, msg.String())
 	printSEINALus(w, seiNALUs, "avc", seiLevel, avcSPS)
 	if parameterSets {
 		for _, nalu := range nalus {
@@ -410,26 +411,26 @@ func printAVCNalus(w io.Writer, avcSPS *avc.SPS, nalus [][]byte, nr int, pts uin
 }
 
 func printHEVCNalus(w io.Writer, nalus [][]byte, nr int, pts uint64, seiLevel int, parameterSets bool, nrRaw int) error {
-	msg := ""
+	var msg strings.Builder // one line per sample: appending must not copy what is already there
 	var seiNALUs [][]byte
 	totLen := 0
 	for i, nalu := range nalus {
 		totLen += 4 + len(nalu)
 		if i > 0 {
-			msg += ","
+			msg.WriteString(",")
 		}
 		naluType := hevc.GetNaluType(nalu[0])
 		if nrRaw > 0 {
-			msg += fmt.Sprintf("\n %s (%dB)", naluType, len(nalu))
-			msg += fmt.Sprintf(" raw: %s", bytesToStringN(nalu, nrRaw))
+			fmt.Fprintf(&msg, "\n %s (%dB)", naluType, len(nalu))
+			fmt.Fprintf(&msg, " raw: %s", bytesToStringN(nalu, nrRaw))
 		} else {
-			msg += fmt.Sprintf(" %s (%dB)", naluType, len(nalu))
+			fmt.Fprintf(&msg, " %s (%dB)", naluType, len(nalu))
 		}
 		if seiLevel > 0 && (naluType == hevc.NALU_SEI_PREFIX || naluType == hevc.NALU_SEI_SUFFIX) {
 			seiNALUs = append(seiNALUs, nalu)
 		}
 	}
-	fmt.Fprintf(w, "Sample %d, pts=%d (%dB):%s\n", nr, pts, totLen, msg)
+	fmt.Fprintf(w, "Sample %d, pts=%d (%dB):%s\n", nr, pts, totLen, msg.String())
 	printSEINALus(w, seiNALUs, "hevc", seiLevel, nil)
 	if parameterSets {
 		for _, nalu := range nalus {
